@@ -11,7 +11,7 @@
    property's clause for callbacks (Reader/Callbacks.v).
    Proofs: Reader/Proofs.v, Reader/Mid.v, Reader/Mutex.v, Reader/Callbacks.v. *)
 From Coq Require Import ZArith List Bool Permutation Lia.
-From GoCoap Require Import Reader.Model Reader.Spec Reader.Proofs Reader.Mid Reader.Mutex Reader.Callbacks.
+From GoCoap Require Import Reader.Model Reader.Spec Reader.Proofs Reader.Mid Reader.Mutex Reader.Callbacks Reader.Separate.
 Import ListNotations.
 Open Scope Z_scope.
 
@@ -321,6 +321,35 @@ Theorem C11_wait_without_replacement_refuted :
     never_stalls (mkObs [1; 2] [1] true true false [(1, 2, false)] [] []) = false.
 Proof. exact wait_without_replacement_stalls. Qed.
 Print Assumptions C11_wait_without_replacement_refuted.
+
+(* Round 4 (seed C11/13), Reader/Separate.v: what udp/client.Conn does with a received message before a handler sees
+   it (IsPing / IsSeparateMessage in handleSpecialMessages on the socket reader and in handle on the reader loop).
+   For every header, whether or not a message-ID handler / a token handler is pending: a message that carries a code
+   reaches a handler (the token handler of a waiting request or the application's handler): it is neither dropped by
+   the socket reader nor discarded after its dispatch. *)
+Theorem C11_coded_message_reaches_handler : forall h mid_pending token_pending,
+  h_code h <> 0 -> reaches_handler is_separate h mid_pending token_pending = true.
+Proof. exact coded_reaches_handler. Qed.
+Print Assumptions C11_coded_message_reaches_handler.
+
+(* ... and the connection consumes exactly the messages that carry nothing for the application: the empty
+   acknowledgement and the ping (code Empty, CON or ACK, no token, no options, no payload) *)
+Theorem C11_only_empty_control_consumed : forall h mid_pending token_pending,
+  reaches_handler is_separate h mid_pending token_pending = false <-> empty_control h = true.
+Proof. exact consumed_iff_empty_control. Qed.
+Print Assumptions C11_only_empty_control_consumed.
+
+(* shape of seed C11/13 (IsSeparateMessage without the test of the code): the piggybacked 2.02 without token, options
+   and payload releases the acknowledgement wait of the request it answers and is then discarded on the reader loop
+   (without a pending wait: dropped by the socket reader); in the code as it is it goes to the application handler *)
+Theorem C11_bare_response_dropped_refuted :
+  h_code bare_deleted <> 0 /\
+  special is_separate_seed bare_deleted true = Queued true /\ handle is_separate_seed bare_deleted false = Discarded /\
+  special is_separate_seed bare_deleted false = Dropped /\
+  reaches_handler is_separate_seed bare_deleted true false = false /\
+  reaches_handler is_separate bare_deleted true false = true /\ handle is_separate bare_deleted false = AppHandler.
+Proof. exact seed_shape_drops. Qed.
+Print Assumptions C11_bare_response_dropped_refuted.
 
 (* a non-trivial instance at mutex granularity: rendezvous queue, handlers of 1 and 2 nest (response 3), one external
    caller; the external caller replaces the busy loop 0 and is still inside its section while the loop it started
